@@ -135,10 +135,15 @@ macro_rules! define_ops {
         }
         pub fn rot<F: Lay>(dir: usize, a: u128, n: u32) -> Out {
             let x = w::<F>(a);
-            if dir == 0 {
-                o(x.rotate_left(n))
-            } else {
-                o(x.rotate_right(n))
+            match dir {
+                0 => o(x.rotate_left(n)),
+                1 => o(x.rotate_right(n)),
+                // dir >= 2: `From<F> for Wrapping<F>` and the limits / layout functions of `Wrapping<F>`
+                2 => o(W::<F>::from(F::from_raw(a))),
+                3 => o(W::<F>::min_value()),
+                4 => o(W::<F>::max_value()),
+                5 => Out::C(W::<F>::int_nbits() as u64),
+                _ => Out::C(W::<F>::frac_nbits() as u64),
             }
         }
         pub fn shift<F: Lay>(dir: usize, ty: usize, form: usize, a: u128, k: i128) -> Out
